@@ -44,9 +44,11 @@ def canon(x):
 
 
 def snapshot(e):
-    d = {k: canon(v) for k, v in vars(e).items() if k != "_profile"}
-    d["_profile"] = (id(e._profile), canon(e._profile))
-    return d
+    """the recorded rounds and the stored profile (what the statement says queries must leave unchanged).
+    Other instance attributes are deliberately not compared: a memo cache that does not change any answer
+    is not a violation; whether answers change is checked by re-asking every query at the end."""
+    return {"election_states": canon(e.election_states), "_profile": (id(e._profile), canon(e._profile)),
+            "length": canon(getattr(e, "length", None)), "n_states": len(e.election_states)}
 
 
 def spec_elected(states, r):
@@ -112,6 +114,10 @@ def queries(ctx):
     n = len(states)
     before = snapshot(e)
     out = {"kind": "ok", "rounds": n}
+    first_answers = {}
+
+    def remember(q, r, val):
+        first_answers.setdefault((q, r), canon(val))
 
     def pure(label):
         after = snapshot(e)
@@ -129,6 +135,8 @@ def queries(ctx):
         except Exception as exc:
             ctx.fail(f"c09:query-raises:{type(exc).__name__}@{where_raised(exc)}", f"round {r}")
             return out
+        for q_, v_ in (("get_elected", el), ("get_eliminated", ou), ("get_remaining", rem), ("get_ranking", rk), ("get_status_df", df)):
+            remember(q_, r, v_)
         if el != spec_elected(states, r) or ou != spec_eliminated(states, r) or rem != tuple(states[r].remaining):
             ctx.fail("c09:cumulative-queries", f"round {r}: elected {el} eliminated {ou} remaining {rem}")
         if rk != tuple(s for s in el + rem + ou if len(s) != 0):
@@ -150,6 +158,7 @@ def queries(ctx):
             return out
         if not pure(f"get_profile({r})"):
             return out
+        remember("get_profile", r, pr)
         remc = sorted(c for s in states[r].remaining for c in s)
         if ctx.canary == "profile-keeps-elected":
             remc = sorted(remc + [c for s in states[r].elected for c in s])
@@ -184,6 +193,16 @@ def queries(ctx):
             except Exception as exc:
                 ctx.fail(f"c09:out-of-range-wrong-error:{type(exc).__name__}", f"{q}({bad})")
     pure("out-of-range queries")
+    # answers to later queries are unchanged by the whole history of queries above
+    for (q, r), val in first_answers.items():
+        try:
+            again = canon(query(e, q, r))
+        except Exception as exc:
+            ctx.fail("c09:later-query-raises", f"{q}({r}) after the query history: {type(exc).__name__}")
+            continue
+        if again != val:
+            ctx.fail("c09:later-answer-changed", f"{q}({r}) answers differently after the query history")
+    pure("re-asked queries")
     if len(e) != n - 1:
         ctx.fail("c09:len")
     ctx.require(True, "c09:queries-checked")
